@@ -144,5 +144,12 @@ claim("C18", "model_checking",
       "the user's parameters), the two diffusion equations and the Marshak condition as term vectors (differences sized to the solver's 1e-6 absolute quadrature tolerance), decay ahead of the wave, "
       "and the ordering / monotonicity bounds.", MEAS, TECH, "DESIGN.md 9 C18")
 
+claim("C12", "model_checking",
+      "Radiative-shock campaign (equilibrium diffusion, non-equilibrium diffusion in its closure variants; Mach numbers incl. embedded hydrodynamic shocks, gamma, specific heat, reference "
+      "temperature, density; the Sn solver (20 s) is not scanned): (a) through the public call at two times the displacement of the profile is measured from the returned fields and TLC compares "
+      "the implied speed with M0 sqrt(gamma (gamma-1) Cv Tref) computed in sign/log arithmetic from the USER's parameters, and the shape at equal offsets must not change; (b) along the whole steady "
+      "profile mass flux, momentum flux incl. radiation pressure and energy flux incl. the radiative flux are constant; (c) the upstream end is the user's ambient state and both ends are in "
+      "radiative equilibrium.", MEAS, TECH, "DESIGN.md 9 C12")
+
 for p in [ "C07", "C08", "C09", "C10", "C11", "C12", "C13", "C14", "C15", "C16", "C18", "C19", "C20"]:
     pending(p, "check under construction in this round (design in DESIGN.md section 9); not claimed until it runs soundly on the unchanged tree")
